@@ -75,6 +75,17 @@ CHECKS = {
               "callable; offsets; points) re-computed by TLC from the definition."),
         design_ref="DESIGN.md section 4, C18",
         note="equal-length cluster members and a unique best lag (asserted); rotation to 1e-12 relative; sampled for real-valued data; trusted: TLC 1.8, FP.class, TableIO.class"),
+    "C10": dict(
+        engine="Duration",
+        technique="TLA+ declarative definition (strictly-inside sets over a cumulative measure); TLC exhaustive on an exact lattice with the implementation table in lock-step; TLC trace validation of recorded calls and relation events",
+        category="model_checking",
+        text=("MC_Duration: every record over {-2..2} to length 6 (quick) / 7 (thorough), dt = 1/2, six dyadic fraction pairs, four "
+              "thresholds: laws of the definition (range, scale invariance, shift by k, widening monotone, bracketed monotone / joint "
+              "scaling) and equality with calc_sig_dur_vals, calc_sig_dur (Arias and custom CAV measure, se True/False) and calc_brac_dur "
+              "in every state, including IndexError exactly when no sample is strictly inside. Exact ties abound on the lattice, which "
+              "separates < from <=. Trace_Duration: random records up to 5000 samples re-evaluated by TLC + relation events."),
+        design_ref="DESIGN.md section 4, C10",
+        note=LEVEL_NOTE_N + "; ties within 1e-12 of a boundary accepted on either side off the lattice; shift law for trapezoid-based measures on records starting at zero"),
 }
 
 NOT_YET = {}
